@@ -39,7 +39,7 @@ def section5(known, seeded):
         out.append("**Tie** %sextracted-model correspondence and oracle in `harness/%s.py`%s.\n" % (
             "translator `harness/translate/%s.py` (regenerated on every run) + " % pid.lower() if tr else "", pid.lower(),
             " (+ `harness/expcore.py`)" if pid in ("C01", "C03") else ""))
-        fns = sorted(k.split(":", 1)[0].replace("coba/", "") + ":" + k.split(":", 1)[1] for k in fps.get(pid, {}))
+        fns = sorted(k.replace("coba/", "") for k in fps.get(pid, {}))
         out.append(wrap("**Fingerprinted** " + ", ".join(fns)) + "\n")
         opens = [k for k in known if k["property"] == pid and k["status"] == "open"]
         nfix = sum(1 for k in known if k["property"] == pid and k["status"] == "fixed")
